@@ -30,7 +30,8 @@ META = dict(
                "(fixes/C37-prune-dead-man-switch-map.diff); on the unrepaired code the correspondence breaks and the "
                "oracle reports the failing history. Trusted: Lean kernel (+ propext/Classical.choice/Quot.sound), the "
                "harness, fastapi_websocket_pubsub's notifier delivering subscribe events with the subscriber id. The "
-               "set of units is fixed during a history; user names and publish notifications are not modelled. Results are "
+               "units are a fixed universe whose engines may disconnect and re-register; user names and publish notifications are "
+               "not modelled. Results are "
                "compared as ok / err / true / false (which exception a malformed event raises is not compared). The known "
                "finding covers exactly: listed, not connected when registering and never connected since; a user who had a "
                "live connection at or after the registration and is listed without one is a violation.",
@@ -39,13 +40,14 @@ META = dict(
               "+ independent history oracle",
 )
 MODULE = "OPM.Properties.C37"
-REQUIRED = ["OPM.C37.dms_iff_live", "OPM.C37.listed_implies_registered", "OPM.C37.last_disconnect_removes_everywhere",
+REQUIRED = ["OPM.C37.engine_outage_empties_unit", "OPM.C37.dms_iff_live", "OPM.C37.listed_implies_registered", "OPM.C37.last_disconnect_removes_everywhere",
             "OPM.C37.listed_implies_live_partial", "OPM.C37.C37_partial", "OPM.C37.C37_counterexample",
             "OPM.C37.register_lists", "OPM.C37.disconnect_with_other_connection_keeps"]
 
 KNOWN_KEY = "listed-without-live-connection:registered-while-not-connected"
 
 # A case: {"units": n, "ops": [op, ...]}; op = ["sub", c, [topic, ...]] | ["disc", c] | ["reg", e, u] | ["unreg", e, u]
+#                                          | ["edown", e] | ["eup", e]   (the unit's engine disconnects / registers)
 # topic = "u<k>" (dead_man_switch/<user k>), "u<k>+" (same with an extra path segment), "x" (another topic),
 #         "b" (dead_man_switch without a slash: IndexError in the handler)
 
@@ -69,8 +71,8 @@ def op_lines(case, init="init") -> list[str]:
     for op in case["ops"]:
         if op[0] == "sub":
             out.append(f"sub\t{op[1]}\t" + ("-" if not op[2] else ",".join(wire_topic(t) for t in op[2])))
-        elif op[0] == "disc":
-            out.append(f"disc\t{op[1]}")
+        elif op[0] in ("disc", "edown", "eup"):
+            out.append(f"{op[0]}\t{op[1]}")
         else:
             out.append(f"{op[0]}\t{op[1]}\t{op[2]}")
     return out
@@ -90,19 +92,55 @@ async def _noop(*_a, **_k):
     return None
 
 
-def _setup(n_units: int):
+_db_ready = False
+
+
+def _engine_data(i: int):
     import openpectus.aggregator.models as Mdl
-    from openpectus.aggregator.aggregator import FromFrontend
+    return Mdl.EngineData(engine_id=f"E{i}", computer_name="c", engine_version="1", hardware_str="", uod_name="u",
+                          uod_author_name="", uod_author_email="", uod_filename="", location="",
+                          data_log_interval_seconds=1)
+
+
+def _setup():
+    """The real Aggregator (FromFrontend and FromEngine on one engine map) behind the real FrontendPublisher; an
+    in-memory database for the recent-engine bookkeeping of engine_disconnected / register_engine_data."""
+    global _db_ready
+    import openpectus.aggregator.data.models as DMdl
+    from openpectus.aggregator.aggregator import Aggregator
+    from openpectus.aggregator.data import database
     from openpectus.aggregator.frontend_publisher import FrontendPublisher
-    pub = FrontendPublisher()
-    pub.pubsub_endpoint.publish = AsyncMock()
-    units = {}
-    for i in range(n_units):
-        units[f"E{i}"] = Mdl.EngineData(engine_id=f"E{i}", computer_name="c", engine_version="1", hardware_str="",
-                                        uod_name="u", uod_author_name="", uod_author_email="", uod_filename="",
-                                        location="", data_log_interval_seconds=1)
-    ff = FromFrontend(units, Mock(), pub, Mock())
-    return pub, units, ff
+    from openpectus.protocol.aggregator_dispatcher import AggregatorDispatcher
+    if not _db_ready:
+        database.configure_db("sqlite:///:memory:")
+        DMdl.DBModel.metadata.create_all(database._engine)  # type: ignore[arg-type]
+        _db_ready = True
+    global _pub
+    if _pub is None:
+        # one FrontendPublisher per process (building its FastAPI routes is the expensive part); every case gets a new
+        # Aggregator, whose FromFrontend wires itself to the publisher in its constructor — so the wiring of the previous
+        # case (disconnect callback, subscribe event, pubsub subscriptions) is taken off first
+        _pub = FrontendPublisher()
+        _pub.pubsub_endpoint.publish = _noop
+    _pub.on_disconnect_callbacks.clear()
+    notifier = _pub.pubsub_endpoint.notifier
+    notifier._on_subscribe_events.clear()
+    notifier._topics.clear()
+    agg = Aggregator(AggregatorDispatcher(), _pub, _WebPushStub())
+    return _pub, agg
+
+
+_pub = None
+
+
+class _WebPushStub:
+    async def publish_message(self, *a, **k):
+        return None
+
+
+class _Channel:
+    def __init__(self, cid: str):
+        self.id = cid
 
 
 def _group(pairs) -> str:
@@ -118,18 +156,28 @@ def _num(s: str, prefix: str) -> int:
 
 def execute(case):
     """Runs the history on the real code. Returns per event (result, listed pairs (unit, user), map pairs (conn, user))."""
-    pub, units, ff = _setup(case["units"])
+    pub, agg = _setup()
+    ff, fe, units = agg.from_frontend, agg.from_engine, agg._engine_data_map
     notifier = pub.pubsub_endpoint.notifier
     obs = []
 
     async def main():
+        for i in range(case["units"]):          # all units are in the engine map at the start
+            units[f"E{i}"] = _engine_data(i)
         for op in case["ops"]:
             try:
                 if op[0] == "sub":
                     await notifier.subscribe(f"conn{op[1]}", [topic_text(t, i) for i, t in enumerate(op[2])], _noop)
                     r = "ok"
                 elif op[0] == "disc":
-                    await pub.on_disconnect(Mock(id=f"conn{op[1]}"))
+                    await pub.on_disconnect(_Channel(f"conn{op[1]}"))
+                    r = "ok"
+                elif op[0] == "edown":
+                    fe.engine_disconnected(f"E{op[1]}")
+                    r = "ok"
+                elif op[0] == "eup":
+                    if op[1] < case["units"]:       # the model's universe of units is 0 .. units-1
+                        fe.register_engine_data(_engine_data(op[1]))
                     r = "ok"
                 elif op[0] == "reg":
                     r = "true" if await ff.register_active_user(f"E{op[1]}", f"user{op[2]}", "Name") else "false"
@@ -172,6 +220,7 @@ def oracle(case) -> list[Failure] | None:
     live: dict[int, set[int]] = {}             # connection -> users whose dead man switch it subscribed to
     reg_at: dict[tuple[int, int], int] = {}    # (unit, user) -> index of the registration in force
     lost_at: dict[int, int] = {}               # user -> index of the latest event that closed their last connection
+    away: set[int] = set()                     # units whose engine is currently away
     last_live: dict[int, int] = {}             # user -> index of the latest event after which they had a live connection
     found: dict[str, Failure] = {}
 
@@ -188,10 +237,18 @@ def oracle(case) -> list[Failure] | None:
             for u in gone - users_live():
                 lost_at[u] = i
         elif op[0] == "reg":
-            if op[1] < case["units"]:
+            if op[1] < case["units"] and op[1] not in away:     # a request for a unit whose engine is away is refused
                 reg_at[(op[1], op[2])] = i
         elif op[0] == "unreg":
-            reg_at.pop((op[1], op[2]), None)
+            if op[1] not in away:
+                reg_at.pop((op[1], op[2]), None)
+        elif op[0] == "edown":
+            away.add(op[1])
+        elif op[0] == "eup":
+            away.discard(op[1])
+        # An engine outage does not end a registration as far as the property is concerned (the code as it is empties the
+        # list, which is allowed: "only while"); what must not happen is that a user whose last connection closed is
+        # listed — also when that happened while the engine was away.
         connected = users_live()
         for u in connected:
             last_live[u] = i
@@ -223,8 +280,10 @@ def oracle(case) -> list[Failure] | None:
 # ---------------------------------------------------------------------------------------------------------
 # generators
 
-def alphabet(users: int, conns: int, units: int) -> list[list]:
+def alphabet(users: int, conns: int, units: int, engines: bool = False) -> list[list]:
     ops: list[list] = []
+    if engines:
+        ops += [[k, e] for e in range(units) for k in ("edown", "eup")]
     ops += [["sub", c, [f"u{u}"]] for c in range(conns) for u in range(users)]
     ops += [["disc", c] for c in range(conns)]
     ops += [["reg", e, u] for e in range(units) for u in range(users)]
@@ -232,10 +291,38 @@ def alphabet(users: int, conns: int, units: int) -> list[list]:
     return ops
 
 
-def gen_exhaustive(users: int, conns: int, units: int, maxlen: int) -> list[dict]:
-    ab = alphabet(users, conns, units)
+def _canonical(h) -> bool:
+    """Users, connections and units are interchangeable (code and model only compare ids for equality), so of all
+    histories that differ by a renaming only the one that introduces each kind of id in the order 0, 1, 2 … is kept."""
+    nu = nc = ne = 0
+    for op in h:
+        if op[0] == "sub":
+            cs, us, es = [op[1]], [int(t[1:]) for t in op[2]], []
+        elif op[0] == "disc":
+            cs, us, es = [op[1]], [], []
+        elif op[0] in ("edown", "eup"):
+            cs, us, es = [], [], [op[1]]
+        else:
+            cs, us, es = [], [op[2]], [op[1]]
+        for c in cs:
+            if c > nc:
+                return False
+            nc = max(nc, c + 1)
+        for e in es:
+            if e > ne:
+                return False
+            ne = max(ne, e + 1)
+        for u in us:
+            if u > nu:
+                return False
+            nu = max(nu, u + 1)
+    return True
+
+
+def gen_exhaustive(users: int, conns: int, units: int, maxlen: int, engines: bool = False) -> list[dict]:
+    ab = alphabet(users, conns, units, engines)
     return [{"units": units, "ops": [list(o) for o in h]}
-            for ln in range(1, maxlen + 1) for h in itertools.product(ab, repeat=ln)]
+            for ln in range(1, maxlen + 1) for h in itertools.product(ab, repeat=ln) if _canonical(h)]
 
 
 def gen_sessions(ctx: Check, n: int) -> list[dict]:
@@ -247,7 +334,13 @@ def gen_sessions(ctx: Check, n: int) -> list[dict]:
         next_conn = 0
         open_conns: dict[int, int] = {}
         ops: list[list] = []
+        pending_up: list[list[int]] = []
         for _ in range(rng.randrange(4, 40)):
+            for pu in list(pending_up):
+                pu[0] -= 1
+                if pu[0] < 0:
+                    ops.append(["eup", pu[1]])
+                    pending_up.remove(pu)
             u = rng.randrange(users)
             mine = [c for c, w in open_conns.items() if w == u]
             k = rng.random()
@@ -259,8 +352,12 @@ def gen_sessions(ctx: Check, n: int) -> list[dict]:
                 ops.append(["sub", c, noise + [rng.choice([f"u{u}", f"u{u}", f"u{u}+"])]])
                 if rng.random() < 0.3:
                     ops.append(["sub", c, ["x"]])
-            elif k < 0.50:
+            elif k < 0.46:
                 ops.append(["reg", rng.randrange(units), u])
+            elif k < 0.50:            # the unit's engine drops out; it comes back a few events later
+                e = rng.randrange(units)
+                ops.append(["edown", e])
+                pending_up.append([rng.randrange(0, 4), e])
             elif k < 0.62:
                 e, e2 = rng.randrange(units), rng.randrange(units)
                 ops += [["unreg", e, u], ["reg", e2, u]]
@@ -300,8 +397,10 @@ def gen_malformed(ctx: Check, n: int) -> list[dict]:
                 ops.append(["sub", rng.randrange(3), toks])
             elif k < 0.55:
                 ops.append(["disc", rng.randrange(4)])
-            elif k < 0.80:
+            elif k < 0.75:
                 ops.append(["reg", rng.randrange(units + 1), rng.randrange(3)])
+            elif k < 0.85:
+                ops.append([rng.choice(["edown", "eup", "edown"]), rng.randrange(units + 1)])
             else:
                 ops.append(["unreg", rng.randrange(units + 1), rng.randrange(3)])
         cases.append({"units": units, "ops": ops})
@@ -317,6 +416,17 @@ def is_nontrivial(case, _out=None) -> bool:
 def _count(ctx: Check, case) -> None:
     ops = case["ops"]
     ctx.count(f"len<={(len(ops) + 4) // 5 * 5}")
+    if any(o[0] == "edown" for o in ops):
+        ctx.count("engine-outage")
+        down = set()
+        for o in ops:
+            if o[0] == "edown":
+                down.add(o[1])
+            elif o[0] == "eup":
+                down.discard(o[1])
+            elif o[0] == "disc" and down:
+                ctx.count("disconnect-during-engine-outage")
+                break
     subs = [o for o in ops if o[0] == "sub"]
     if sum(1 for o in ops if o[0] == "disc") >= 2:
         ctx.count("two-or-more-disconnects")
@@ -340,13 +450,16 @@ def run(ctx: Check) -> int:
     ctx.prove(MODULE, REQUIRED)
     corpus = [c for c in load_corpus(ctx.id) if "ops" in c]
     small = gen_exhaustive(2, 2, 1, ctx.n(4, 5))
-    small2 = gen_exhaustive(1, 3, 2, ctx.n(3, 4))
+    small2 = gen_exhaustive(1, 3, 2, ctx.n(3, 4)) + gen_exhaustive(1, 1, 1, ctx.n(5, 6), engines=True)
     sessions = gen_sessions(ctx, ctx.n(1200, 20000))
     bad = gen_malformed(ctx, ctx.n(400, 8000))
-    ctx.rule = ("histories of [sub c topics | disc c | reg unit user | unreg unit user] run on FromFrontend wired to the real "
-                "FrontendPublisher; the listing, the connection map and the result are compared after EVERY event. small: "
+    ctx.rule = ("histories of [sub c topics | disc c | reg unit user | unreg unit user | edown unit | eup unit] run on the "
+                "real Aggregator (FromFrontend + FromEngine.engine_disconnected / register_engine_data on one engine map) "
+                "wired to the real FrontendPublisher; the listing, the connection map and the result are compared after EVERY event. small: "
                 "ALL histories up to length 4/5 over 2 users x 2 connections x 1 unit and up to length 3/4 over 1 user x 3 "
-                "connections x 2 units. sessions: random browser sessions (connect, register, move, reconnect, tabs, close; "
+                "connections x 2 units, and up to length 5/6 over 1 user x 1 connection x 1 unit INCLUDING engine down / up. "
+                "(Of histories that differ only by renaming users / connections / units one representative is run.) "
+                "sessions (with engine outages of 0-3 events): random browser sessions (connect, register, move, reconnect, tabs, close; "
                 "1-3 users, 1-3 units, fresh connection ids). malformed: topics without '/', disconnect of unknown "
                 "connections, unknown units, several users on one connection, reused connection ids. Non-trivial = at least "
                 "two disconnects and a registration.")
@@ -362,10 +475,11 @@ def run(ctx: Check) -> int:
     ctx.exhaustive = True
     ctx.extra["exhaustive_scope"] = (f"all histories of length <= {ctx.n(4, 5)} over 2 users x 2 connections x 1 unit "
                                      f"({len(small)}) and of length <= {ctx.n(3, 4)} over 1 user x 3 connections x 2 units "
-                                     f"({len(small2)}); sessions and malformed streams are sampled")
+                                     f"and <= {ctx.n(5, 6)} over 1 user x 1 connection x 1 unit with engine down/up ({len(small2)}), up to "
+                                     f"renaming of ids; sessions and malformed streams are sampled")
     ctx.assumptions = ["a live connection of a user = a websocket connection that subscribed to the user's "
                        "dead_man_switch/<user> topic and has not been closed since",
-                       "the set of units does not change during a history",
+                       "units are 0..n-1, all registered at the start; an engine may leave the map and register again (edown / eup)",
                        "clause 'listed => live connection' is claimed only for histories in which users register while "
                        "connected (C37_partial); the other clauses for all histories"]
     return ctx.finish(search=lambda c: c.monitor(gen_sessions(c, 3000) + gen_exhaustive(2, 2, 1, 4), oracle))
